@@ -917,6 +917,15 @@ class TCPHiddenServiceEndpointParser(object):
         else:
             singleHop = False
 
+        if singleHop and hiddenServiceDir is not None:
+            # refuse here: system_tor() / global_tor() below start a
+            # control connection (or launch a Tor) before the endpoint's
+            # constructor gets to reject this combination
+            raise ValueError(
+                "singleHop= only makes sense for ephemeral onions; it "
+                "can't be combined with hiddenServiceDir="
+            )
+
         if version is not None:
             try:
                 version = int(version)
